@@ -10,16 +10,17 @@ What is modelled, one definition per Go function, quirks included:
 * literals after `CoerceToNumeric` (`int64` / `float64` payloads; datetime strings become
   `UnixNano`), `GetValueAsInt64`, `GetValueAsFloat64`, `GenericComparison` (always compares through
   `float64`, because `GetValueAsFloat64` succeeds for integers too);
-* `StaticPredicate.AddComparison` (as written: a second bound on the same side replaces the stored
-  one exactly when it is NOT within it — the looser bound survives; the INCLUSIVE flag is only ever
-  added), `StaticPredicateGroup.Merge`, `VisitComparisonParse` / `VisitBetweenParse` (BETWEEN ⇒
-  strict `GT`/`LT`), `IsFalse`;
+* `StaticPredicate.AddComparison` (a second bound on the same side keeps the TIGHTER of the two in
+  `GenericComparison`'s float64 order, with its own inclusiveness; two different equalities set
+  `contradiction`), `StaticPredicateGroup.Merge`, `VisitComparisonParse` / `VisitBetweenParse`
+  (BETWEEN ⇒ strict `GT`/`LT`), `IsFalse`;
 * `SelectRelation.Materialize`: early empty result for a contradictory predicate, catalog lookup,
-  `SourceValidator`, Epoch push-down (`+1`/`-1` on inclusive bounds, raw literal as nanoseconds),
-  LIMIT push-down only without predicates, the post-filter per Go slice type
-  (`[]float32 []float64 []int32 []int64`; every other column type falls through the switch), the
-  Epoch branch with `convertUnitToNanosec` re-applied to the bound on every row, `RestrictViaBitmap`,
-  `Project`, `Rename`, `RestrictLength`;
+  `SourceValidator`, Epoch push-down (literal through `convertUnitToNanosec`, one nanosecond inwards
+  for EXCLUSIVE bounds), LIMIT push-down only without predicates, the post-filter per Go slice type
+  (`[]float32 []float64 []int32 []int64`; int8/int16/unsigned columns widened to `[]int64` by
+  `widenIntegerColumn`; int32 values compared in 64 bits), the Epoch branch with the bound converted
+  once before the loop, `RestrictViaBitmap`, the one-pass projection/alias step with `AddColumn`'s
+  collision renaming, `RestrictLength` (also for `LIMIT 0`: `hasLimit`);
 * `InsertIntoStatement.Materialize` → `WriteCSM` → the Store model's `writeRecords`.
 
 Fixed-length buckets, zone UTC (inherited from `Mkts.Store`).  The ANTLR lexer/parser and the
@@ -94,50 +95,79 @@ def genericComparison (l r : Lit) (op : CmpOp) : Bool :=
 
 /-! ## StaticPredicate -/
 
+def threshold : Int := 32503680000
+
+/-- `convertUnitToNanosec` (with the `int64` product wrapping like Go) -/
+def convUnit (x : Int) : Int := if x > threshold then x else wrap64 (x * 1000000000)
+
+
+
 /-- `StaticPredicate`: `MINBOUND`/`MAXBOUND`/`EQUALITY` are set exactly when the value is present;
-    `INCLUSIVEMIN`/`INCLUSIVEMAX` are separate sticky flags (`AddOption` only, never cleared). -/
+    `INCLUSIVEMIN`/`INCLUSIVEMAX` are separate flags; `contradiction` = two different equalities. -/
 structure SP where
   min : Option Lit := none
   max : Option Lit := none
   equal : Option Lit := none
   inclMin : Bool := false
   inclMax : Bool := false
+  contradiction : Bool := false
+  /-- `sp.Column.GetName() == "Epoch"` -/
+  epoch : Bool := false
 deriving DecidableEq, Repr
+
+/-- `sp.comparable(v)`: the scale on which the bounds of one predicate are compared — an Epoch
+    literal (epoch seconds or nanoseconds) goes through `convertUnitToNanosec` -/
+def SP.cmpLit (sp : SP) (l : Lit) : Lit :=
+  match sp.epoch, l with
+  | true, .int v => .int (convUnit v)
+  | _, l => l
 
 def SP.setMin (sp : SP) (v : Lit) (incl : Bool) : SP := { sp with min := some v, inclMin := sp.inclMin || incl }
 def SP.setMax (sp : SP) (v : Lit) (incl : Bool) : SP := { sp with max := some v, inclMax := sp.inclMax || incl }
 
-/-- `(*StaticPredicate).AddComparison` -/
+/-- `(*StaticPredicate).AddComparison`: a second bound on one side replaces the stored one when it
+    is below (above) it, or equal to it and strict — the tighter bound with its own inclusiveness
+    (`DelOption` then `SetMax`/`SetMin`) -/
 def SP.addComparison (sp : SP) (op : CmpOp) (v : Lit) : SP :=
   match op with
-  | .eq => { sp with equal := some v }
+  | .eq =>
+    let c := match sp.equal with
+      | none => false
+      | some e => genericComparison (sp.cmpLit v) (sp.cmpLit e) .lt || genericComparison (sp.cmpLit v) (sp.cmpLit e) .gt
+    { sp with equal := some v, contradiction := sp.contradiction || c }
   | .lt | .le =>
     match sp.max with
     | none => sp.setMax v (op == .le)
-    | some m => if genericComparison v m op then sp else sp.setMax v (op == .le)
+    | some m =>
+      let below := genericComparison (sp.cmpLit v) (sp.cmpLit m) .lt
+      let above := genericComparison (sp.cmpLit v) (sp.cmpLit m) .gt
+      if below || (!above && op == .lt) then { sp with max := some v, inclMax := (op == .le) } else sp
   | .gt | .ge =>
     match sp.min with
     | none => sp.setMin v (op == .ge)
-    | some m => if genericComparison v m op then sp else sp.setMin v (op == .ge)
+    | some m =>
+      let above := genericComparison (sp.cmpLit v) (sp.cmpLit m) .gt
+      let below := genericComparison (sp.cmpLit v) (sp.cmpLit m) .lt
+      if above || (!below && op == .gt) then { sp with min := some v, inclMin := (op == .ge) } else sp
 
 /-- the body of `StaticPredicateGroup.Merge` for the target predicate of the column -/
 def SP.merge (tgt sp : SP) : SP :=
   let t1 := match sp.min with
     | none => tgt
-    | some m => if sp.inclMin then ({ tgt with inclMin := true } : SP).addComparison .ge m
-                else tgt.addComparison .gt m
+    | some m => tgt.addComparison (if sp.inclMin then .ge else .gt) m
   let t2 := match sp.max with
     | none => t1
-    | some m => if sp.inclMax then ({ t1 with inclMax := true } : SP).addComparison .le m
-                else t1.addComparison .lt m
+    | some m => t1.addComparison (if sp.inclMax then .le else .lt) m
   match sp.equal with
   | none => t2
   | some e => t2.addComparison .eq e
 
-/-- `IsFalse`: `GenericComparison(min, max, GT)`; an absent bound is a nil comparison = false -/
+/-- `IsFalse`: `contradiction`, or `GenericComparison(min, max, GT)` (an absent bound is a nil
+    comparison = false) -/
 def SP.isFalse (sp : SP) : Bool :=
+  sp.contradiction ||
   match sp.min, sp.max with
-  | some a, some b => genericComparison a b .gt
+  | some a, some b => genericComparison (sp.cmpLit a) (sp.cmpLit b) .gt
   | _, _ => false
 
 /-- one conjunct of the WHERE clause: `col op literal` or `col BETWEEN lo AND hi` -/
@@ -152,8 +182,8 @@ def Conj.col : Conj → String
 
 /-- the `pendingSP` built by `VisitComparisonParse` / `VisitBetweenParse` for one conjunct -/
 def Conj.pending : Conj → SP
-  | .cmp _ op v => ({} : SP).addComparison op v
-  | .between _ lo hi => (({} : SP).addComparison .gt lo).addComparison .lt hi
+  | .cmp c op v => ({ epoch := c == "Epoch" } : SP).addComparison op v
+  | .between c lo hi => (({ epoch := c == "Epoch" } : SP).addComparison .gt lo).addComparison .lt hi
 
 /-- `StaticPredicateGroup` (a Go map; association list in insertion order) -/
 abbrev Group := List (String × SP)
@@ -163,7 +193,7 @@ def Group.get (g : Group) (c : String) : Option SP := (g.find? (fun e => e.1 == 
 /-- `spg.Merge(sp, false)`: `Add` the column if absent, then merge into it -/
 def Group.mergeCol (g : Group) (c : String) (sp : SP) : Group :=
   match g with
-  | [] => [(c, ({} : SP).merge sp)]
+  | [] => [(c, ({ epoch := c == "Epoch" } : SP).merge sp)]
   | (c', t) :: rest => if c' == c then (c', t.merge sp) :: rest else (c', t) :: Group.mergeCol rest c sp
 
 /-- `VisitBooleanExpressionParse` over the conjunction, left to right -/
@@ -173,8 +203,8 @@ def buildGroup (cs : List Conj) : Group := cs.foldl (fun g c => g.mergeCol c.col
 
 inductive ColTy where
   | i32 | i64 | f32 | f64
-  /-- every other fixed-width type (`int8 int16 uint8 uint16 uint32 uint64`): stored and returned,
-      but there is no case for its slice type in the post-filter switch -/
+  /-- every other fixed-width integer type (`int8 int16 uint8 uint16 uint32 uint64`): widened to
+      `[]int64` by `widenIntegerColumn` before the post-filter switch -/
   | other (size : Nat) (signed : Bool)
 deriving DecidableEq, Repr
 
@@ -192,19 +222,14 @@ def colBytes : List ColDef → String → Bytes → Option Bytes
   | c :: rest, name, p =>
     if c.name == name then some (p.take c.ty.size) else colBytes rest name (p.drop c.ty.size)
 
-def threshold : Int := 32503680000
-
-/-- `convertUnitToNanosec` (with the `int64` product wrapping like Go) -/
-def convUnit (x : Int) : Int := if x > threshold then x else wrap64 (x * 1000000000)
-
 /-- the post-filter test of ONE row value against a bound, in the column's Go type:
     `keepBound ty op bound bytes` = the row is NOT flagged by the comparison `val op bound`
     (`op` is the predicate's operator: the code removes on the negated test). -/
 def keepVal (ty : ColTy) (op : CmpOp) (lit : Lit) (b : Bytes) : Bool :=
   match ty with
   | .i32 =>
-    let v := leDecodeInt b
-    let l := wrap32 lit.asI64
+    let v := leDecodeInt b              -- `int64(val)`: the value is widened, the literal is not narrowed
+    let l := lit.asI64
     (match op with
      | .eq => !(v != l) | .lt => !(decide (v ≥ l)) | .le => !(decide (v > l))
      | .gt => !(decide (v ≤ l)) | .ge => !(decide (v < l)))
@@ -232,7 +257,13 @@ def keepVal (ty : ColTy) (op : CmpOp) (lit : Lit) (b : Bytes) : Bool :=
      | .le => !(Float.lt Float.b64 l v)
      | .gt => !(fle Float.b64 v l)
      | .ge => !(Float.lt Float.b64 v l))
-  | .other _ _ => true
+  | .other _ signed =>
+    -- `toInt64s`: Go conversion of the element to int64 (a uint64 above 2^63-1 wraps)
+    let v := wrap64 (if signed then leDecodeInt b else (leDecode b : Int))
+    let l := lit.asI64
+    (match op with
+     | .eq => !(v != l) | .lt => !(decide (v ≥ l)) | .le => !(decide (v > l))
+     | .gt => !(decide (v ≤ l)) | .ge => !(decide (v < l)))
 
 /-- the three `if sp.ContentsEnum.IsSet(...)` blocks of one value column for one row -/
 def keepSP (ty : ColTy) (sp : SP) (b : Bytes) : Bool :=
@@ -246,25 +277,20 @@ def keepInt (op : CmpOp) (v l : Int) : Bool :=
   | .eq => v == l | .lt => decide (v < l) | .le => decide (v ≤ l)
   | .gt => decide (v > l) | .ge => decide (v ≥ l)
 
-/-- one `for i, val := range col` loop of the Epoch branch: the bound variable is re-assigned
-    `convertUnitToNanosec(bound)` on EVERY iteration (so a small literal is scaled again and again) -/
-def epochLoop (op : CmpOp) : Int → List Int → List Bool
-  | _, [] => []
-  | bound, sec :: rest =>
-    let b := convUnit bound
-    keepInt op (convUnit sec) b :: epochLoop op b rest
-
-/-- one `if sp.ContentsEnum.IsSet(…)` block of the Epoch branch: absent bound = nothing flagged -/
-def optLoop (op : CmpOp) (l : Option Lit) (secs : List Int) : List Bool :=
+/-- one Epoch test of one row: the bound is converted ONCE before the loop, the row value inside -/
+def optKeep (op : CmpOp) (l : Option Lit) (sec : Int) : Bool :=
   match l with
-  | none => secs.map (fun _ => true)
-  | some l => epochLoop op l.asI64 secs
+  | none => true
+  | some l => keepInt op (convUnit sec) (convUnit l.asI64)
 
-/-- keep flags of the Epoch column (fixed-length bucket: no Nanoseconds column) -/
-def epochKeep (sp : SP) (secs : List Int) : List Bool :=
-  List.zipWith (· && ·) (optLoop .eq sp.equal secs)
-    (List.zipWith (· && ·) (optLoop (if sp.inclMin then .ge else .gt) sp.min secs)
-      (optLoop (if sp.inclMax then .le else .lt) sp.max secs))
+/-- the three `if sp.ContentsEnum.IsSet(…)` blocks of the Epoch branch for one row
+    (fixed-length bucket: no Nanoseconds column) -/
+def keepEpoch (sp : SP) (sec : Int) : Bool :=
+  optKeep .eq sp.equal sec &&
+  (optKeep (if sp.inclMin then .ge else .gt) sp.min sec && optKeep (if sp.inclMax then .le else .lt) sp.max sec)
+
+/-- keep flags of the Epoch column -/
+def epochKeep (sp : SP) (secs : List Int) : List Bool := secs.map (keepEpoch sp)
 
 /-- `RestrictViaBitmap` on rows -/
 def restrict {α} : List α → List Bool → List α
@@ -302,32 +328,56 @@ def CS.len (cs : CS) : Nat :=
   | [] => 0
   | n :: _ => ((cs.get n).getD []).length
 
-/-- ASCII `strings.EqualFold` -/
-def equalFold (a b : String) : Bool := a.toList.map Char.toLower == b.toList.map Char.toLower
-
-/-- `Remove` of an existing column: names dropped case-insensitively, map entry exactly -/
-def CS.remove (cs : CS) (n : String) : CS :=
-  { names := cs.names.filter (fun x => !equalFold x n), cols := cs.cols.filter (fun e => e.1 != n) }
-
-/-- `AddColumn` (no collision arises on the paths modelled here) -/
-def CS.add (cs : CS) (n : String) (d : List Bytes) : CS :=
-  { names := cs.names ++ [n], cols := cs.cols.filter (fun e => e.1 != n) ++ [(n, d)] }
-
 /-- `Project(keepList)`: requested order, unknown names skipped, duplicates kept in the name list -/
 def CS.project (cs : CS) (keep : List String) : CS :=
   let present := keep.filter (fun n => (cs.get n).isSome)
   { names := present,
     cols := present.eraseDups.filterMap (fun n => (cs.get n).map (fun d => (n, d))) }
 
-/-- `Rename(newName, oldName)`; `none` = the error "Source column named … does not exist" -/
-def CS.rename (cs : CS) (newName oldName : String) : Option CS :=
-  match cs.get oldName with
+structure Item where
+  name : String
+  alias : Option String
+deriving Repr, DecidableEq
+
+/-- a ColumnSeries under construction (`io.NewColumnSeries()` + `AddColumn`s): ordered names, the
+    column map, and the `nameIncrement` collision counters -/
+structure CSB where
+  names : List String := []
+  cols : List (String × List Bytes) := []
+  incr : List (String × Nat) := []
+deriving Repr, DecidableEq
+
+/-- `AddColumn`: a name that is already a key of the column map is made unique by appending its
+    collision counter (0 for the first collision, then 1, …); the entry is stored under the final
+    name (overwriting a map entry of that name, if any) -/
+def CSB.addColumn (b : CSB) (name : String) (d : List Bytes) : CSB :=
+  if b.cols.any (fun e => e.1 == name) then
+    let n := match b.incr.find? (fun e => e.1 == name) with
+      | none => 0
+      | some e => e.2 + 1
+    let name' := name ++ toString n
+    { names := b.names ++ [name'], cols := b.cols.filter (fun e => e.1 != name') ++ [(name', d)],
+      incr := (name, n) :: b.incr.filter (fun e => e.1 != name) }
+  else { b with names := b.names ++ [name], cols := b.cols ++ [(name, d)] }
+
+def CSB.toCS (b : CSB) : CS := ⟨b.names, b.cols⟩
+
+/-- output name of a select item -/
+def Item.out (it : Item) : String := it.alias.getD it.name
+
+/-- one iteration of the projection loop -/
+def projectStep (cs : CS) (acc : Option CSB) (it : Item) : Option CSB :=
+  match acc with
   | none => none
-  | some old =>
-    let cs1 := if (cs.get newName).isSome then cs.remove newName else cs
-    let newNames := cs1.names.map (fun n => if n == oldName then newName else n)
-    let cs2 := (cs1.add newName old).remove oldName
-    some { cs2 with names := newNames }
+  | some b => match cs.get it.name with
+    | none => none
+    | some d => some (b.addColumn it.out d)
+
+/-- the projection / alias step of `Materialize`: ONE pass over the select list, every output column
+    taken from the unmodified input series under its alias or its own name; `none` = the error
+    "Source column named … does not exist" -/
+def projectOnePass (cs : CS) (items : List Item) : Option CS :=
+  (items.foldl (projectStep cs) (some ({} : CSB))).map CSB.toCS
 
 /-- `RestrictLength(n, FIRST)` via `DownSizeSlice` -/
 def CS.restrictLength (cs : CS) (n : Nat) : CS :=
@@ -341,11 +391,6 @@ def csOfRows (cols : List ColDef) (rows : List Row) : CS :=
 
 /-! ## SELECT -/
 
-structure Item where
-  name : String
-  alias : Option String
-deriving Repr, DecidableEq
-
 structure Select where
   star : Bool
   items : List Item
@@ -353,6 +398,8 @@ structure Select where
   conj : List Conj
   /-- `sr.Limit`: 0 when there is no LIMIT clause — and also for `LIMIT 0` -/
   limit : Nat
+  /-- `sr.hasLimit`: a LIMIT clause is present -/
+  hasLimit : Bool
 deriving Repr
 
 structure Table where
@@ -368,13 +415,14 @@ deriving Repr, DecidableEq
 
 def findTable (db : List Table) (k : String) : Option Table := db.find? (fun t => t.key == k)
 
-/-- Epoch push-down: `time.Unix(val/1e9, val%1e9)` is the instant `val` ns -/
+/-- Epoch push-down: the literal goes through `convertUnitToNanosec`, an EXCLUSIVE bound is moved one
+    nanosecond inwards; `time.Unix(val/1e9, val%1e9)` is the instant `val` ns -/
 def pushdown (g : Group) : Option Int × Option Int :=
   match g.get "Epoch" with
   | none => (none, none)
   | some sp =>
-    (sp.min.map (fun m => m.asI64 + (if sp.inclMin then 1 else 0)),
-     sp.max.map (fun m => m.asI64 - (if sp.inclMax then 1 else 0)))
+    (sp.min.map (fun m => convUnit m.asI64 + (if sp.inclMin then 0 else 1)),
+     sp.max.map (fun m => convUnit m.asI64 - (if sp.inclMax then 0 else 1)))
 
 /-- the planner/reader call: Epoch bounds pushed down; LIMIT pushed down only when there is no
     static predicate at all -/
@@ -394,22 +442,19 @@ def materializeSelect (db : List Table) (s : Select) : Except Err CS :=
   match findTable db s.table with
   | none => .error .nokey
   | some t =>
-    let keep := s.items.map (·.name)
+    let keep := s.items.map (·.name)   -- `SourceValidator`'s keepList
     if !s.star && keep.any (fun n => n != "Epoch" && !(t.cols.any (fun c => c.name == n))) then .error .colnotfound else
     -- `if outputColumnSeries.Len() == 0 { return }` sits BEFORE the post-filter
     if (readRows t g s.limit).isEmpty then .ok (csOfRows t.cols []) else
     let cs := csOfRows t.cols (selectRows t g s.limit)
     let projected : Except Err CS :=
       if s.star then .ok cs else
-        s.items.foldl (fun acc it => match acc, it.alias with
-          | .error e, _ => .error e
-          | .ok c, none => .ok c
-          | .ok c, some a => match c.rename a it.name with
-            | none => .error .rename
-            | some c' => .ok c') (.ok (cs.project keep))
+        match projectOnePass cs s.items with
+        | none => .error .rename
+        | some c => .ok c
     match projected with
     | .error e => .error e
-    | .ok c => .ok (if s.limit != 0 then c.restrictLength s.limit else c)
+    | .ok c => .ok (if s.hasLimit || s.limit != 0 then c.restrictLength s.limit else c)
 
 /-! ## INSERT INTO … SELECT -/
 
